@@ -6,7 +6,11 @@ From the CURRENT src/internal/md5/md5c.c (raw source, comments stripped, and `gc
     with the `#define Sij n` shift amounts resolved;
   * the four initialisation words of MD5Init, the PADDING array;
   * a fingerprint of the macros F G H I ROTATE_LEFT FF GG HH II and of the non-step statements of
-    MD5Transform (`md5MacrosAsModelled`): the Lean model transcribes exactly these texts.
+    MD5Transform (`md5MacrosAsModelled`): the Lean model transcribes exactly these texts;
+  * the bit-count bookkeeping of MD5Update: index shift/mask, the `<< 3` of the low word with its
+    carry test, the `>> 29` added to the high word (the model's `bufIndex`/`countUpdate` are driven
+    by these), and a fingerprint of the other statements of MD5Update, MD5Pad, MD5Final
+    (`md5UpdateAsModelled`).
 From `gcc -E -P` of src/utilities/qhash.c (so the `#ifdef __GNUC__` branches are resolved):
   * FNV offset bases and the shift lists of the shift-add multiplications;
   * MurmurHash3 constants c1/c2, rotation amounts, the `h*5+n` constants, fmix shifts/multipliers,
@@ -118,8 +122,45 @@ def extract_md5(repo):
     padding += [0] * (64 - len(padding))      # C zero-fills a short initialiser list
     if len(padding) != 64:
         die("PADDING has %d initialisers" % len(padding))
-    return {"steps": steps, "init": init, "padding": padding,
-            "macros_ok": macros_ok and frame_ok and le_ok}
+    res = {"steps": steps, "init": init, "padding": padding,
+           "macros_ok": macros_ok and frame_ok and le_ok}
+    res.update(extract_update(joined))
+    return res
+
+
+# MD5Update: the bit-count statements carry the extracted constants, the rest is a fixed frame
+UPDATE_COUNT_RE = re.compile(
+    r"^unsignedinti,idx,partLen;"
+    r"idx=\(unsignedint\)\(\(context->count\[0\]>>(\w+)\)&(\w+)\);"
+    r"if\(\(context->count\[0\]\+=\(\(u_int32_t\)inputLen<<(\w+)\)\)<\(\(u_int32_t\)inputLen<<(\w+)\)\)context->count\[1\]\+\+;"
+    r"context->count\[1\]\+=\(\(u_int32_t\)inputLen>>(\w+)\);"
+    r"partLen=64-idx;(.*)$")
+UPDATE_REST = ("if(inputLen>=partLen){memcpy((void*)&context->buffer[idx],(constvoid*)input,partLen);"
+               "MD5Transform(context->state,context->buffer);"
+               "for(i=partLen;i+63<inputLen;i+=64)MD5Transform(context->state,&input[i]);idx=0;}elsei=0;"
+               "memcpy((void*)&context->buffer[idx],(constvoid*)&input[i],inputLen-i);")
+PAD_RE = re.compile(r"^unsignedcharbits\[8\];unsignedintidx,padLen;Encode\(bits,context->count,8\);"
+                    r"idx=\(unsignedint\)\(\(context->count\[0\]>>(\w+)\)&(\w+)\);"
+                    r"padLen=\(idx<56\)\?\(56-idx\):\(120-idx\);"
+                    r"MD5Update\(context,PADDING,padLen\);MD5Update\(context,bits,8\);$")
+FINAL_FRAME = "MD5Pad(context);Encode(digest,context->state,16);memset((void*)context,0,sizeof(*context));"
+
+
+def extract_update(joined):
+    """the bit-count bookkeeping of MD5Update (shift amounts, index mask) and a fingerprint of the
+    remaining statements of MD5Update, MD5Pad, MD5Final"""
+    m = UPDATE_COUNT_RE.match(norm(func_body(joined, "MD5Update")))
+    if not m:
+        die("MD5Update: the bit-count statements (idx = (count[0] >> 3) & 0x3F; count[0] += inputLen << 3 "
+            "with carry into count[1]; count[1] += inputLen >> 29; partLen = 64 - idx) do not have the modelled shape")
+    idx_shr, idx_mask, shl_a, shl_b, shr, rest = m.groups()
+    if cint(shl_a) != cint(shl_b):
+        die("MD5Update: count[0] is increased by inputLen << %s but compared with inputLen << %s" % (shl_a, shl_b))
+    p = PAD_RE.match(norm(func_body(joined, "MD5Pad")))
+    pad_ok = bool(p) and cint(p.group(1)) == cint(idx_shr) and cint(p.group(2)) == cint(idx_mask)
+    final_ok = norm(func_body(joined, "MD5Final")) == FINAL_FRAME
+    return {"idx_shr": cint(idx_shr), "idx_mask": cint(idx_mask), "cnt_shl": cint(shl_a), "cnt_shr": cint(shr),
+            "update_ok": rest == UPDATE_REST and pad_ok and final_ok}
 
 
 # ------------------------------------------------------------------ qhash.c
@@ -257,7 +298,17 @@ def render(d):
           "def md5Padding : List UInt8 := [%s]" % ", ".join(str(v) for v in d["padding"]), "",
           "/-- the macros F G H I ROTATE_LEFT FF GG HH II, the statements of MD5Transform around the",
           "    step lines and `Decode = memcpy` are textually the ones the model transcribes -/",
-          "def md5MacrosAsModelled : Bool := %s" % ("true" if d["macros_ok"] else "false"), ""]
+          "def md5MacrosAsModelled : Bool := %s" % ("true" if d["macros_ok"] else "false"), "",
+          "/-- MD5Update: `idx = (count[0] >> md5IdxShr) & md5IdxMask` -/",
+          "def md5IdxShr : Nat := %d" % d["idx_shr"],
+          "def md5IdxMask : Nat := 0x%x" % d["idx_mask"],
+          "/-- MD5Update: `count[0] += inputLen << md5CntShl` (carry into count[1]);",
+          "    `count[1] += inputLen >> md5CntShr` -/",
+          "def md5CntShl : Nat := %d" % d["cnt_shl"],
+          "def md5CntShr : Nat := %d" % d["cnt_shr"],
+          "/-- the remaining statements of MD5Update (partLen logic, block loop, buffering), MD5Pad (same",
+          "    index expression, padLen rule, the two updates) and MD5Final are textually the modelled ones -/",
+          "def md5UpdateAsModelled : Bool := %s" % ("true" if d["update_ok"] else "false"), ""]
 
     def nat(name, doc, v, hexw=None):
         L.append("/-- %s -/" % doc)
